@@ -3,6 +3,7 @@
   without snapshots): the statement checker accepts the model's trace.
 -/
 import Influx.Lemmas.StoreDelC17
+import Influx.Lemmas.StoreDelC42
 import Influx.Spec.C17x
 
 namespace Influx.Spec.C17x
@@ -37,19 +38,27 @@ theorem find_map_same {α : Type} (l : List α) (f : α → α) (p : α → Bool
 theorem absPts_delete (a : Abs) (lo hi : Int) (pred : Option Pred) (sh : Nat) (k : Bytes × Tags) :
     absPts (a.delete lo hi pred) sh k =
       if predTrue pred k.1 k.2 then outside lo hi (absPts a sh k) else absPts a sh k := by
-  unfold absPts Abs.delete
-  rw [find_map_same]
-  · cases hf : a.find? (fun e => decide (e.shard = sh ∧ keyOf e = k)) with
-    | none => simp [outside]
-    | some e =>
-      have hk := List.find?_some hf
-      simp only [decide_eq_true_eq, keyOf] at hk
-      obtain ⟨_, hk2⟩ := hk
-      subst hk2
-      simp only [Option.map_some, cutEntry]
-      split <;> rfl
-  · intro e
+  have hfind : (a.delete lo hi pred).find? (fun e => decide (e.shard = sh ∧ keyOf e = k)) =
+      (a.find? (fun e => decide (e.shard = sh ∧ keyOf e = k))).map (cutEntry lo hi pred) := by
+    unfold Abs.delete
+    apply find_map_same
+    intro e
     simp only [(cutEntry_key lo hi pred e).1, (cutEntry_key lo hi pred e).2]
+  unfold absPts
+  rw [hfind]
+  cases hf : a.find? (fun e => decide (e.shard = sh ∧ keyOf e = k)) with
+  | none => simp [outside]
+  | some e =>
+    have hk2 : keyOf e = k := by
+      have := List.find?_some hf; simp at this; exact this.2
+    simp only [Option.map_some]
+    have h1 : k.1 = e.name := by rw [← hk2]; rfl
+    have h2 : k.2 = e.tags := by rw [← hk2]; rfl
+    rw [h1, h2]
+    unfold cutEntry
+    by_cases hp : predTrue pred e.name e.tags = true
+    · simp [hp]
+    · simp [hp]
 
 theorem absUniq_write (a : Abs) (h : AbsUniq a) (sh : Nat) (name : Bytes) (tags : Tags) (pts : List (Int × Int)) :
     AbsUniq (a.write sh name tags pts) := by
@@ -82,63 +91,678 @@ theorem absPts_write (a : Abs) (sh : Nat) (name : Bytes) (tags : Tags) (pts : Li
     (sh' : Nat) (k : Bytes × Tags) :
     absPts (a.write sh name tags pts) sh' k =
       if sh' = sh ∧ k = (name, tags) then pts.foldl setPt (absPts a sh k) else absPts a sh' k := by
-  unfold absPts Abs.write
-  split
-  · next hany =>
-    rw [find_map_same]
-    · cases hf : a.find? (fun e => decide (e.shard = sh' ∧ keyOf e = k)) with
-      | none =>
-        simp only [Option.map_none]
-        split
-        · next hc =>
-          exfalso
-          obtain ⟨rfl, rfl⟩ := hc
-          simp only [List.any_eq_true, decide_eq_true_eq] at hany
-          obtain ⟨e, he, h1, h2, h3⟩ := hany
-          have := List.find?_eq_none.1 hf e he
-          simp [keyOf, h1, h2, h3] at this
-        · rfl
-      | some e =>
-        have hk := List.find?_some hf
-        simp only [decide_eq_true_eq, keyOf] at hk
-        simp only [Option.map_some]
-        by_cases hc : sh' = sh ∧ k = (name, tags)
-        · obtain ⟨rfl, rfl⟩ := hc
-          simp only [Prod.mk.injEq] at hk
-          simp [hk.1, hk.2.1, hk.2.2, hf]
-        · simp only [hc, if_false]
-          have : ¬ (e.shard = sh ∧ e.name = name ∧ e.tags = tags) := by
-            intro h
-            apply hc
-            refine ⟨hk.1 ▸ h.1, ?_⟩
-            rw [← hk.2, h.2.1, h.2.2]
-          simp [this]
-    · intro e
+  by_cases hany : (a.any fun e => decide (e.shard = sh ∧ e.name = name ∧ e.tags = tags)) = true
+  · have hw : a.write sh name tags pts = a.map fun e =>
+        if e.shard = sh ∧ e.name = name ∧ e.tags = tags then { e with pts := pts.foldl setPt e.pts } else e := by
+      unfold Abs.write; rw [if_pos hany]
+    have hfind : (a.write sh name tags pts).find? (fun e => decide (e.shard = sh' ∧ keyOf e = k)) =
+        (a.find? (fun e => decide (e.shard = sh' ∧ keyOf e = k))).map fun e =>
+          if e.shard = sh ∧ e.name = name ∧ e.tags = tags then { e with pts := pts.foldl setPt e.pts } else e := by
+      rw [hw]
+      apply find_map_same
+      intro e
       split <;> rfl
-  · next hno =>
-    simp only [List.any_eq_true, decide_eq_true_eq, not_exists, not_and] at hno
-    rw [List.find?_append]
+    unfold absPts
+    rw [hfind]
+    cases hf : a.find? (fun e => decide (e.shard = sh' ∧ keyOf e = k)) with
+    | none =>
+      simp only [Option.map_none]
+      by_cases hc : sh' = sh ∧ k = (name, tags)
+      · exfalso
+        obtain ⟨rfl, rfl⟩ := hc
+        simp only [List.any_eq_true, decide_eq_true_eq] at hany
+        obtain ⟨e, he, h1, h2, h3⟩ := hany
+        have := List.find?_eq_none.1 hf e he
+        simp [keyOf, h1, h2, h3] at this
+      · rw [if_neg hc]
+    | some e =>
+      have hk : e.shard = sh' ∧ keyOf e = k := by
+        have := List.find?_some hf; simpa using this
+      simp only [Option.map_some]
+      by_cases hc : sh' = sh ∧ k = (name, tags)
+      · obtain ⟨rfl, rfl⟩ := hc
+        have hk2 : e.name = name ∧ e.tags = tags := by
+          have := hk.2; simp only [keyOf, Prod.mk.injEq] at this; exact this
+        simp only [hk.1, hk2.1, hk2.2, and_self, if_true, hf]
+      · rw [if_neg hc]
+        have : ¬ (e.shard = sh ∧ e.name = name ∧ e.tags = tags) := by
+          intro h
+          apply hc
+          refine ⟨hk.1 ▸ h.1, ?_⟩
+          rw [← hk.2]; simp [keyOf, h.2.1, h.2.2]
+        simp [this]
+  · have hw : a.write sh name tags pts = a ++ [⟨sh, name, tags, pts.foldl setPt []⟩] := by
+      unfold Abs.write; rw [if_neg hany]
+    have hno : ∀ e ∈ a, ¬ (e.shard = sh ∧ e.name = name ∧ e.tags = tags) := by
+      intro e he hc
+      apply hany
+      simp only [List.any_eq_true, decide_eq_true_eq]
+      exact ⟨e, he, hc⟩
+    unfold absPts
+    rw [hw, List.find?_append]
     cases hf : a.find? (fun e => decide (e.shard = sh' ∧ keyOf e = k)) with
     | some e =>
       simp only [Option.some_or]
-      have hk := List.find?_some hf
+      have hk : e.shard = sh' ∧ keyOf e = k := by
+        have := List.find?_some hf; simpa using this
       have he := List.mem_of_find?_eq_some hf
-      simp only [decide_eq_true_eq, keyOf] at hk
       have : ¬ (sh' = sh ∧ k = (name, tags)) := by
         rintro ⟨rfl, rfl⟩
-        simp only [Prod.mk.injEq] at hk
-        exact hno e he hk.1 hk.2.1 hk.2.2
-      simp [this]
+        have := hk.2; simp only [keyOf, Prod.mk.injEq] at this
+        exact hno e he ⟨hk.1, this.1, this.2⟩
+      rw [if_neg this]
     | none =>
-      simp only [Option.none_or, List.find?_cons, List.find?_nil, keyOf]
+      simp only [Option.none_or, List.find?_cons, List.find?_nil]
       by_cases hc : sh' = sh ∧ k = (name, tags)
       · obtain ⟨rfl, rfl⟩ := hc
-        have hnone : a.find? (fun e => decide (e.shard = sh' ∧ keyOf e = (name, tags))) = none := hf
-        simp [hnone]
-      · have : decide (sh = sh' ∧ (name, tags) = k) = false := by
-          simp only [decide_eq_false_iff_not]
+        rw [if_pos ⟨rfl, rfl⟩, hf]
+        simp [keyOf]
+      · rw [if_neg hc]
+        have : decide (sh = sh' ∧ keyOf (⟨sh, name, tags, pts.foldl setPt []⟩ : Entry) = k) = false := by
+          simp only [keyOf]
+          apply decide_eq_false
           rintro ⟨rfl, rfl⟩
           exact hc ⟨rfl, rfl⟩
-        simp [this, hc]
+        simp [this]
 
 end Influx.Spec.C17x
+
+namespace Influx.Model.StoreDel
+open Influx.Model.DelPred (Bytes Pred)
+open Influx.Spec.C17x (Abs Entry absPts liveKeys keyOf setPt predTrue outside AbsUniq)
+
+/-! ### model side -/
+
+theorem mem_insertPt_iff {p x : Int × Int} {l : List (Int × Int)} (h : Asc l) :
+    x ∈ insertPt p l ↔ x = p ∨ (x ∈ l ∧ x.1 ≠ p.1) := by
+  induction l with
+  | nil => simp [insertPt]
+  | cons q qs ih =>
+    have hq : ∀ y ∈ qs, q.1 < y.1 := (List.pairwise_cons.1 h).1
+    have hqs : Asc qs := (List.pairwise_cons.1 h).2
+    simp only [insertPt]
+    split
+    · next hlt =>
+      simp only [List.mem_cons]
+      constructor
+      · rintro (h1 | h1 | h1)
+        · exact Or.inl h1
+        · subst h1; exact Or.inr ⟨Or.inl rfl, by omega⟩
+        · have := hq x h1; exact Or.inr ⟨Or.inr h1, by omega⟩
+      · rintro (h1 | ⟨h1 | h1, _⟩)
+        · exact Or.inl h1
+        · exact Or.inr (Or.inl h1)
+        · exact Or.inr (Or.inr h1)
+    · split
+      · next hge heq =>
+        simp only [List.mem_cons]
+        constructor
+        · rintro (h1 | h1)
+          · exact Or.inl h1
+          · have := hq x h1; exact Or.inr ⟨Or.inr h1, by omega⟩
+        · rintro (h1 | ⟨h1 | h1, hne⟩)
+          · exact Or.inl h1
+          · subst h1; exact absurd heq.symm hne
+          · exact Or.inr h1
+      · next hge hne =>
+        simp only [List.mem_cons, ih hqs]
+        constructor
+        · rintro (h1 | h1 | ⟨h1, h2⟩)
+          · subst h1; exact Or.inr ⟨Or.inl rfl, fun e => hne e.symm⟩
+          · exact Or.inl h1
+          · exact Or.inr ⟨Or.inr h1, h2⟩
+        · rintro (h1 | ⟨h1 | h1, h2⟩)
+          · exact Or.inr (Or.inl h1)
+          · exact Or.inl h1
+          · exact Or.inr (Or.inr ⟨h1, h2⟩)
+
+theorem mem_setPt_iff {p x : Int × Int} {l : List (Int × Int)} :
+    x ∈ setPt l p ↔ x = p ∨ (x ∈ l ∧ x.1 ≠ p.1) := by
+  simp only [setPt, List.mem_append, List.mem_filter, List.mem_singleton, ne_eq, decide_eq_true_eq]
+  constructor
+  · rintro (h | h)
+    · exact Or.inr h
+    · exact Or.inl h
+  · rintro (h | h)
+    · exact Or.inr h
+    · exact Or.inl h
+
+/-- same points -/
+def SameMem (a b : List (Int × Int)) : Prop := ∀ x, x ∈ a ↔ x ∈ b
+
+theorem sameMem_write (a b new : List (Int × Int)) (ha : Asc a) (h : SameMem a b) :
+    SameMem (addPts a new) (new.foldl setPt b) := by
+  unfold addPts
+  induction new generalizing a b with
+  | nil => exact h
+  | cons p ps ih =>
+    simp only [List.foldl_cons]
+    apply ih _ _ (asc_insertPt p a ha)
+    intro x
+    rw [mem_insertPt_iff ha, mem_setPt_iff, h x]
+
+theorem sameMem_cut (lo hi : Int) (a b : List (Int × Int)) (h : SameMem a b) :
+    SameMem (cutPts lo hi a) (outside lo hi b) := by
+  intro x
+  simp only [cutPts, outside, List.mem_filter, h x]
+
+/-- all values of the shard are still in the cache (no snapshot happened) -/
+def ShardCacheOnly (sh : Shard) : Prop := ∀ s ∈ sh.series, CacheOnly s
+
+theorem pts_cacheOnly (s : Series) (hwf : s.WF) (hc : CacheOnly s) : s.pts = s.cache := by
+  unfold CacheOnly at hc
+  rw [pts_def, hc]
+  exact addPts_nil_asc s.cache hwf.2
+
+theorem findSeries_mem {sh : Shard} {name : Bytes} {tags : Tags} {s : Series}
+    (h : findSeries sh name tags = some s) : s ∈ sh.series ∧ s.name = name ∧ s.tags = tags := by
+  unfold findSeries at h
+  refine ⟨List.mem_of_find?_eq_some h, ?_⟩
+  have := List.find?_some h
+  simpa [sameKey] using this
+
+theorem find_of_mem_uniq (l : List Series) (hu : (l.map fun s => (s.name, s.tags)).Nodup) {s : Series} (hs : s ∈ l) :
+    l.find? (sameKey s.name s.tags) = some s := by
+  induction l with
+  | nil => cases hs
+  | cons x xs ih =>
+    have hx := (List.nodup_cons.1 hu).1
+    simp only [List.find?_cons]
+    rcases List.mem_cons.1 hs with rfl | hs'
+    · simp [sameKey]
+    · have : sameKey s.name s.tags x = false := by
+        simp only [sameKey, decide_eq_false_iff_not]
+        intro hc
+        apply hx
+        exact List.mem_map.2 ⟨s, hs', by simp only; rw [hc.1, hc.2]⟩
+      simp only [this]
+      exact ih (List.nodup_cons.1 hu).2 hs'
+
+theorem findSeries_of_mem {sh : Shard} (hwf : ShardWF sh) {s : Series} (hs : s ∈ sh.series) :
+    findSeries sh s.name s.tags = some s := find_of_mem_uniq sh.series hwf.uniq hs
+
+theorem readPts_of_mem {sh : Shard} (hwf : ShardWF sh) {s : Series} (hs : s ∈ sh.series) :
+    readPts sh s.name s.tags = s.pts := by
+  unfold readPts
+  rw [findSeries_of_mem hwf hs]
+
+theorem readPts_asc (sh : Shard) (hwf : ShardWF sh) (name : Bytes) (tags : Tags) : Asc (readPts sh name tags) := by
+  unfold readPts
+  cases hf : findSeries sh name tags with
+  | none => simp [Asc]
+  | some s =>
+    obtain ⟨hs, _, _⟩ := findSeries_mem hf
+    obtain ⟨hswf, _⟩ := hwf.wf s hs
+    simp only
+    rw [pts_def]
+    exact asc_addPts _ _ (asc_mergeFrom [] s.files (by simp [Asc]))
+
+/-- a write changes what the written series reads (last write wins) and nothing else -/
+theorem readPts_write (sh : Shard) (hwf : ShardWF sh) (hc : ShardCacheOnly sh) (name : Bytes) (tags : Tags)
+    (pts : List (Int × Int)) (n2 : Bytes) (t2 : Tags) :
+    readPts (sh.write name tags pts) n2 t2 =
+      if n2 = name ∧ t2 = tags then addPts (readPts sh name tags) pts else readPts sh n2 t2 := by
+  unfold Shard.write
+  by_cases hany : (sh.series.any fun s => decide (s.name = name ∧ s.tags = tags)) = true
+  · rw [if_pos hany]
+    unfold readPts findSeries
+    simp only
+    have hfm : (sh.series.map fun s => if s.name = name ∧ s.tags = tags then { s with cache := addPts s.cache pts } else s).find?
+        (sameKey n2 t2) = (sh.series.find? (sameKey n2 t2)).map
+          fun s => if s.name = name ∧ s.tags = tags then { s with cache := addPts s.cache pts } else s := by
+      apply Influx.Spec.C17x.find_map_same
+      intro s
+      split <;> rfl
+    rw [hfm]
+    cases hf : sh.series.find? (sameKey n2 t2) with
+    | none =>
+      simp only [Option.map_none]
+      by_cases hk : n2 = name ∧ t2 = tags
+      · exfalso
+        obtain ⟨rfl, rfl⟩ := hk
+        simp only [List.any_eq_true, decide_eq_true_eq] at hany
+        obtain ⟨s, hs, h1, h2⟩ := hany
+        have := List.find?_eq_none.1 hf s hs
+        simp [sameKey, h1, h2] at this
+      · rw [if_neg hk]
+    | some s =>
+      have hs : s ∈ sh.series := List.mem_of_find?_eq_some hf
+      have hk2 : s.name = n2 ∧ s.tags = t2 := by
+        have := List.find?_some hf; simpa [sameKey] using this
+      obtain ⟨hswf, _⟩ := hwf.wf s hs
+      simp only [Option.map_some]
+      by_cases hk : n2 = name ∧ t2 = tags
+      · obtain ⟨rfl, rfl⟩ := hk
+        have hf' : sh.series.find? (sameKey n2 t2) = some s := hf
+        simp only [hk2.1, hk2.2, and_self, if_true, hf']
+        have hwf' : (⟨n2, t2, s.files, addPts s.cache pts⟩ : Series).WF := ⟨hswf.1, asc_addPts _ _ hswf.2⟩
+        rw [pts_cacheOnly _ hwf' (hc s hs), pts_cacheOnly s hswf (hc s hs)]
+      · rw [if_neg hk]
+        have : ¬ (s.name = name ∧ s.tags = tags) := by
+          intro h; apply hk; rw [← hk2.1, ← hk2.2]; exact h
+        simp [this]
+  · rw [if_neg hany]
+    have hno : ∀ s ∈ sh.series, ¬ (s.name = name ∧ s.tags = tags) := by
+      intro s hs hcn
+      apply hany
+      simp only [List.any_eq_true, decide_eq_true_eq]
+      exact ⟨s, hs, hcn⟩
+    unfold readPts findSeries
+    simp only [List.find?_append]
+    cases hf : sh.series.find? (sameKey n2 t2) with
+    | some s =>
+      have hs : s ∈ sh.series := List.mem_of_find?_eq_some hf
+      have hk2 : s.name = n2 ∧ s.tags = t2 := by
+        have := List.find?_some hf; simpa [sameKey] using this
+      have : ¬ (n2 = name ∧ t2 = tags) := by
+        rintro ⟨rfl, rfl⟩; exact hno s hs hk2
+      simp [this]
+    | none =>
+      simp only [Option.none_or, List.find?_cons, List.find?_nil]
+      by_cases hk : n2 = name ∧ t2 = tags
+      · obtain ⟨rfl, rfl⟩ := hk
+        have hf' : sh.series.find? (sameKey n2 t2) = none := hf
+        simp only [sameKey, and_self, decide_true, if_true, hf']
+        have hwf' : (⟨n2, t2, [], addPts [] pts⟩ : Series).WF := ⟨by simp, asc_addPts [] pts (by simp [Asc])⟩
+        rw [pts_cacheOnly _ hwf' rfl]
+      · rw [if_neg hk]
+        have : sameKey n2 t2 (⟨name, tags, [], addPts [] pts⟩ : Series) = false := by
+          simp only [sameKey, decide_eq_false_iff_not]
+          rintro ⟨rfl, rfl⟩; exact hk ⟨rfl, rfl⟩
+        simp [this]
+
+theorem cacheOnly_write (sh : Shard) (hc : ShardCacheOnly sh) (name : Bytes) (tags : Tags) (pts : List (Int × Int)) :
+    ShardCacheOnly (sh.write name tags pts) := by
+  unfold Shard.write
+  split
+  · intro s' hs'
+    simp only [List.mem_map] at hs'
+    obtain ⟨s, hs, rfl⟩ := hs'
+    split
+    · exact hc s hs
+    · exact hc s hs
+  · intro s' hs'
+    simp only [List.mem_append, List.mem_singleton] at hs'
+    rcases hs' with hs' | rfl
+    · exact hc s' hs'
+    · rfl
+
+theorem cacheOnly_delete (sh : Shard) (hc : ShardCacheOnly sh) (lo hi : Int) (pred : Option Pred) (mname : Option Bytes) :
+    ShardCacheOnly (sh.delete lo hi pred mname) := by
+  intro s' hs'
+  simp only [Shard.delete, List.mem_filterMap] at hs'
+  obtain ⟨s, hs, hd⟩ := hs'
+  unfold delSeries at hd
+  split at hd
+  · split at hd
+    · have hcs := hc s hs
+      cases hd
+      simp only [CacheOnly, Series.cut] at hcs ⊢
+      rw [hcs]; rfl
+    · cases hd
+  · have hcs := hc s hs
+    cases hd; exact hcs
+
+/-! ### the refinement relation -/
+
+open Influx.Spec.C16 (evalPred PredWF SeriesWF) in
+/-- the series lies in the C16 domain -/
+def DomOK (s : Series) : Prop := SeriesWF s.name s.tags = true ∧ DelPred.KeyOK s.name s.tags = true
+
+structure Rel (st : State) (a : Abs) : Prop where
+  ids : (st.map (·.id)).Nodup
+  shards : ∀ sh ∈ st, ShardWF sh ∧ ShardCacheOnly sh ∧ ∀ s ∈ sh.series, DomOK s
+  pts : ∀ sh ∈ st, ∀ k : Bytes × Tags, SameMem (readPts sh k.1 k.2) (absPts a sh.id k)
+  uniq : AbsUniq a
+  cover : ∀ e ∈ a, ∃ sh ∈ st, sh.id = e.shard
+
+theorem shard_write_id (sh : Shard) (name : Bytes) (tags : Tags) (pts : List (Int × Int)) :
+    (sh.write name tags pts).id = sh.id := by
+  unfold Shard.write; split <;> rfl
+
+theorem shard_write_series_dom (sh : Shard) (name : Bytes) (tags : Tags) (pts : List (Int × Int))
+    (hd : ∀ s ∈ sh.series, DomOK s) (hnew : DomOK ⟨name, tags, [], []⟩) :
+    ∀ s ∈ (sh.write name tags pts).series, DomOK s := by
+  unfold Shard.write
+  split
+  · intro s' hs'
+    simp only [List.mem_map] at hs'
+    obtain ⟨s, hs, rfl⟩ := hs'
+    split
+    · exact hd s hs
+    · exact hd s hs
+  · intro s' hs'
+    simp only [List.mem_append, List.mem_singleton] at hs'
+    rcases hs' with hs' | rfl
+    · exact hd s' hs'
+    · exact hnew
+
+theorem rel_write (st : State) (a : Abs) (h : Rel st a) (sh : Nat) (name : Bytes) (tags : Tags)
+    (pts : List (Int × Int)) (hex : st.any (·.id = sh) = true) (hp : pts ≠ [])
+    (hdom : DomOK ⟨name, tags, [], []⟩) :
+    Rel (write st sh name tags pts) (a.write sh name tags pts) := by
+  have hmapid : (write st sh name tags pts).map (·.id) = st.map (·.id) := by
+    unfold write
+    rw [List.map_map]
+    apply List.map_congr_left
+    intro sh0 _
+    simp only [Function.comp]
+    split
+    · exact shard_write_id sh0 name tags pts
+    · rfl
+  constructor
+  · rw [hmapid]; exact h.ids
+  · intro sh' hsh'
+    simp only [write, List.mem_map] at hsh'
+    obtain ⟨sh0, hsh0, rfl⟩ := hsh'
+    obtain ⟨hwf, hc, hd⟩ := h.shards sh0 hsh0
+    split
+    · exact ⟨shardWF_write sh0 hwf name tags pts hp, cacheOnly_write sh0 hc name tags pts,
+        shard_write_series_dom sh0 name tags pts hd hdom⟩
+    · exact ⟨hwf, hc, hd⟩
+  · intro sh' hsh' k
+    simp only [write, List.mem_map] at hsh'
+    obtain ⟨sh0, hsh0, rfl⟩ := hsh'
+    obtain ⟨hwf, hc, _⟩ := h.shards sh0 hsh0
+    by_cases hid : sh0.id = sh
+    · simp only [hid, if_true]
+      rw [shard_write_id, readPts_write sh0 hwf hc, Influx.Spec.C17x.absPts_write, hid]
+      by_cases hk : k.1 = name ∧ k.2 = tags
+      · have hk' : k = (name, tags) := by
+          obtain ⟨k1, k2⟩ := k; simp only at hk; simp [hk.1, hk.2]
+        simp only [hk, and_self, if_true, hk', true_and]
+        have := h.pts sh0 hsh0 (name, tags)
+        rw [hid] at this
+        exact sameMem_write _ _ pts (readPts_asc sh0 hwf name tags) this
+      · have hk' : ¬ (sh = sh ∧ k = (name, tags)) := by
+          rintro ⟨_, rfl⟩; exact hk ⟨rfl, rfl⟩
+        rw [if_neg hk, if_neg hk']
+        have := h.pts sh0 hsh0 k
+        rw [hid] at this
+        exact this
+    · simp only [hid, if_false]
+      rw [Influx.Spec.C17x.absPts_write]
+      have : ¬ (sh0.id = sh ∧ k = (name, tags)) := fun hc' => hid hc'.1
+      simp only [this, if_false]
+      exact h.pts sh0 hsh0 k
+  · exact Influx.Spec.C17x.absUniq_write a h.uniq sh name tags pts
+  · intro e he
+    have hexs : ∃ sh0 ∈ st, sh0.id = sh := by
+      simp only [List.any_eq_true, decide_eq_true_eq] at hex
+      exact hex
+    have hback : ∀ i, (∃ sh0 ∈ st, sh0.id = i) → ∃ sh' ∈ write st sh name tags pts, sh'.id = i := by
+      rintro i ⟨sh0, hsh0, hi⟩
+      refine ⟨if sh0.id = sh then sh0.write name tags pts else sh0, ?_, ?_⟩
+      · simp only [write, List.mem_map]; exact ⟨sh0, hsh0, rfl⟩
+      · split
+        · rw [shard_write_id]; exact hi
+        · exact hi
+    unfold Abs.write at he
+    split at he
+    · simp only [List.mem_map] at he
+      obtain ⟨e0, he0, rfl⟩ := he
+      have := h.cover e0 he0
+      split <;> exact hback _ this
+    · simp only [List.mem_append, List.mem_singleton] at he
+      rcases he with he | rfl
+      · exact hback _ (h.cover e he)
+      · exact hback _ hexs
+
+theorem shard_delete_id (sh : Shard) (lo hi : Int) (pred : Option Pred) (mname : Option Bytes) :
+    (sh.delete lo hi pred mname).id = sh.id := rfl
+
+open Influx.Spec.C16 (evalPred PredWF) in
+theorem selOf_predTrue (sh : Shard) (pred : Option Pred) (hm : Bool) (s : Series) (hs : s ∈ sh.series)
+    (hd : DomOK s) (hp : ∀ p, pred = some p → PredWF p = true) :
+    selOf sh pred (if hm then pred.bind measNameOf else none) s.name s.tags = predTrue pred s.name s.tags := by
+  cases pred with
+  | none =>
+    have : (visited sh none).contains s.name = true := by simpa [visited] using mem_measurements hs
+    cases hm <;> simp only [selOf, predSelects, predTrue, this, Bool.and_self, Option.bind_none, if_true,
+      Bool.false_eq_true, if_false]
+  | some p =>
+    have hsel := predSelects_eq p s.name s.tags (hp p rfl) hd.1 hd.2
+    simp only [predTrue]
+    cases hm with
+    | true => simpa using selOf_handler sh p s hs hsel
+    | false =>
+      have : (visited sh none).contains s.name = true := by simpa [visited] using mem_measurements hs
+      simp only [Bool.false_eq_true, if_false, selOf, this, Bool.true_and]
+      exact hsel
+
+theorem rel_delete (st : State) (a : Abs) (h : Rel st a) (lo hi : Int) (hlh : lo ≤ hi) (pred : Option Pred)
+    (hm : Bool) (hp : ∀ p, pred = some p → Influx.Spec.C16.PredWF p = true) :
+    Rel (delete st lo hi pred hm) (a.delete lo hi pred) := by
+  constructor
+  · have : (delete st lo hi pred hm).map (·.id) = st.map (·.id) := by
+      unfold delete
+      rw [List.map_map]
+      apply List.map_congr_left
+      intro sh0 _
+      rfl
+    rw [this]; exact h.ids
+  · intro sh' hsh'
+    simp only [delete, List.mem_map] at hsh'
+    obtain ⟨sh0, hsh0, rfl⟩ := hsh'
+    obtain ⟨hwf, hc, hd⟩ := h.shards sh0 hsh0
+    refine ⟨shardWF_delete sh0 hwf lo hi hlh pred _, cacheOnly_delete sh0 hc lo hi pred _, ?_⟩
+    intro s' hs'
+    simp only [Shard.delete, List.mem_filterMap] at hs'
+    obtain ⟨s, hs, hds⟩ := hs'
+    obtain ⟨hn, ht⟩ := delSeries_name hds
+    have := hd s hs
+    unfold DomOK at this ⊢
+    rw [hn, ht]; exact this
+  · intro sh' hsh' k
+    simp only [delete, List.mem_map] at hsh'
+    obtain ⟨sh0, hsh0, rfl⟩ := hsh'
+    obtain ⟨hwf, hc, hd⟩ := h.shards sh0 hsh0
+    rw [shard_delete_id, readPts_delete sh0 hwf lo hi hlh, Influx.Spec.C17x.absPts_delete]
+    have hR := h.pts sh0 hsh0 k
+    cases hf : findSeries sh0 k.1 k.2 with
+    | none =>
+      have hempty : readPts sh0 k.1 k.2 = [] := by unfold readPts; rw [hf]
+      rw [hempty] at hR ⊢
+      have hno : ∀ x, x ∉ absPts a sh0.id k := fun x hx => by
+        have := (hR x).2 hx; cases this
+      intro x
+      constructor
+      · intro hx; split at hx <;> simp [cutPts] at hx
+      · intro hx
+        exfalso
+        split at hx
+        · exact hno x (List.mem_filter.1 hx).1
+        · exact hno x hx
+    | some s =>
+      obtain ⟨hs, hn, ht⟩ := findSeries_mem hf
+      have hsel := selOf_predTrue sh0 pred hm s hs (hd s hs) hp
+      rw [hn, ht] at hsel
+      rw [hsel]
+      by_cases hpt : predTrue pred k.1 k.2 = true
+      · simp only [hpt, if_true]
+        exact sameMem_cut lo hi _ _ hR
+      · simp only [hpt, Bool.false_eq_true, if_false]
+        exact hR
+  · exact Influx.Spec.C17x.absUniq_delete a h.uniq lo hi pred
+  · intro e he
+    simp only [Abs.delete, List.mem_map] at he
+    obtain ⟨e0, he0, rfl⟩ := he
+    obtain ⟨sh0, hsh0, hid⟩ := h.cover e0 he0
+    refine ⟨sh0.delete lo hi pred (if hm then pred.bind measNameOf else none), ?_, ?_⟩
+    · simp only [delete, List.mem_map]; exact ⟨sh0, hsh0, rfl⟩
+    · rw [shard_delete_id, (Influx.Spec.C17x.cutEntry_key lo hi pred e0).1]; exact hid
+
+/-! ### the model's typed answers -/
+
+open Influx.Spec.C17x (Ans Verd judgeObs judgeCase holdsOn sameSet ascTimes)
+
+/-- what a `read` prints: the series with a remaining value, in key order -/
+def seriesOut (l : List Series) : List ((Bytes × Tags) × List (Int × Int)) :=
+  (l.filter fun s => !s.pts.isEmpty).map fun s => ((s.name, s.tags), s.pts)
+
+/-- the model's answer to an op, as the typed observation the statement checker reads
+    (`stepOp` renders the same values as text) -/
+def ansOf (st : Option State) (op : Op) : Ans :=
+  match st, op with
+  | none, .open_ _ => .ok
+  | none, _ => .other "bad-op"
+  | some _, .open_ _ => .other "bad-op"
+  | some s, .write sh _ _ _ => if s.any (·.id = sh) then .ok else .other "bad-op"
+  | some s, .snap sh => if s.any (·.id = sh) then .ok else .other "bad-op"
+  | some _, .del .. => .ok
+  | some s, .read sh => match readShard s sh with
+    | some l => .points (seriesOut l)
+    | none => .other "bad-op"
+  | some s, .ls sh => match readShard s sh with
+    | some l => .ids (l.map fun x => (x.name, x.tags))
+    | none => .other "bad-op"
+  | some s, .mn a c => .keys (measurementNames a s c)
+  | some _, _ => .other "-"
+
+def runT : Option State → List Op → List (Op × Ans)
+  | _, [] => []
+  | st, op :: ops => (op, ansOf st op) :: runT (stepOp st op).1 ops
+
+/-! ### sorting by key is a permutation -/
+
+theorem insertByKey_perm (s : Series) (l : List Series) : (insertByKey s l).Perm (s :: l) := by
+  induction l with
+  | nil => exact List.Perm.refl _
+  | cons y ys ih =>
+    simp only [insertByKey]
+    split
+    · exact (List.Perm.cons y ih).trans (List.Perm.swap s y ys)
+    · exact List.Perm.refl _
+
+theorem sortByKey_perm (l : List Series) : (sortByKey l).Perm l := by
+  unfold sortByKey
+  induction l with
+  | nil => exact List.Perm.refl _
+  | cons x xs ih =>
+    simp only [List.foldr_cons]
+    exact (insertByKey_perm x _).trans (List.Perm.cons x ih)
+
+theorem mem_sortByKey {s : Series} {l : List Series} : s ∈ sortByKey l ↔ s ∈ l :=
+  (sortByKey_perm l).mem_iff
+
+theorem nodup_keys_sortByKey (l : List Series) (h : (l.map fun s => (s.name, s.tags)).Nodup) :
+    ((sortByKey l).map fun s => (s.name, s.tags)).Nodup :=
+  ((sortByKey_perm l).map _).nodup_iff.2 h
+
+theorem asc_ascTimes (l : List (Int × Int)) (h : Asc l) : ascTimes l = true := by
+  induction l with
+  | nil => rfl
+  | cons a rest ih =>
+    cases rest with
+    | nil => rfl
+    | cons b rest' =>
+      simp only [ascTimes, Bool.and_eq_true, decide_eq_true_eq]
+      exact ⟨(List.pairwise_cons.1 h).1 b (by simp), ih (List.pairwise_cons.1 h).2⟩
+
+theorem sameSet_of_sameMem {x y : List (Int × Int)} (h : SameMem x y) : sameSet y x = true := by
+  simp only [sameSet, Bool.and_eq_true, List.all_eq_true, List.contains_eq_mem, decide_eq_true_eq]
+  exact ⟨fun p hp => (h p).2 hp, fun p hp => (h p).1 hp⟩
+
+theorem absPts_of_mem {a : Abs} (hu : AbsUniq a) {e : Entry} (he : e ∈ a) : absPts a e.shard (keyOf e) = e.pts := by
+  unfold absPts
+  have : a.find? (fun x => decide (x.shard = e.shard ∧ keyOf x = keyOf e)) = some e := by
+    unfold AbsUniq at hu
+    induction a with
+    | nil => cases he
+    | cons x xs ih =>
+      have hx := (List.nodup_cons.1 hu).1
+      simp only [List.find?_cons]
+      rcases List.mem_cons.1 he with rfl | he'
+      · simp
+      · have : decide (x.shard = e.shard ∧ keyOf x = keyOf e) = false := by
+          apply decide_eq_false
+          intro hc
+          apply hx
+          exact List.mem_map.2 ⟨e, he', by simp only; rw [hc.1, hc.2]⟩
+        simp only [this]
+        exact ih (List.nodup_cons.1 hu).2 he'
+  rw [this]
+
+theorem strictAsc_nodup (l : List Bytes) (h : StrictAsc l) : l.Nodup := by
+  induction l with
+  | nil => exact List.nodup_nil
+  | cons a rest ih =>
+    refine List.nodup_cons.2 ⟨?_, ih (strictAsc_tail h)⟩
+    intro hmem
+    -- every later element is greater than a
+    have hgt : ∀ l : List Bytes, StrictAsc (a :: l) → ∀ y ∈ l, cmpBytes a y = .lt := by
+      intro l
+      induction l generalizing a with
+      | nil => intro _ y hy; cases hy
+      | cons b rest' ih2 =>
+        intro hs y hy
+        rcases List.mem_cons.1 hy with rfl | hy
+        · exact hs.1
+        · exact cmpBytes_trans hs.1 (ih2 hs.2 y hy)
+    have := hgt rest h a hmem
+    rw [cmpBytes_refl] at this
+    cases this
+
+/-! ### the judged observations -/
+
+theorem judge_read (st : State) (a : Abs) (h : Rel st a) (sh : Nat) (l : List Series)
+    (hr : readShard st sh = some l) : judgeObs a (.read sh) (.points (seriesOut l)) = .ok := by
+  unfold readShard at hr
+  cases hf : st.find? (·.id = sh) with
+  | none => simp [hf] at hr
+  | some sh0 =>
+    simp only [hf, Option.map_some, Option.some.injEq] at hr
+    subst hr
+    have hsh0 : sh0 ∈ st := List.mem_of_find?_eq_some hf
+    have hid : sh0.id = sh := by have := List.find?_some hf; simpa using this
+    obtain ⟨hwf, hc, _⟩ := h.shards sh0 hsh0
+    have hkeys : (seriesOut (sortByKey sh0.series)).map (·.1) =
+        ((sortByKey sh0.series).filter fun s => !s.pts.isEmpty).map fun s => (s.name, s.tags) := by
+      simp [seriesOut, List.map_map, Function.comp]
+    have c1 : ((seriesOut (sortByKey sh0.series)).map (·.1)).Nodup := by
+      rw [hkeys]
+      exact List.Nodup.sublist (List.Sublist.map _ List.filter_sublist) (nodup_keys_sortByKey _ hwf.uniq)
+    have c2 : ∀ x ∈ seriesOut (sortByKey sh0.series),
+        (!x.2.isEmpty && ascTimes x.2 && sameSet (absPts a sh x.1) x.2) = true := by
+      intro x hx
+      simp only [seriesOut, List.mem_map, List.mem_filter] at hx
+      obtain ⟨s, ⟨hs, hne⟩, rfl⟩ := hx
+      have hs' : s ∈ sh0.series := mem_sortByKey.1 hs
+      have hrp := readPts_of_mem hwf hs'
+      have hasc : Asc s.pts := by rw [← hrp]; exact readPts_asc sh0 hwf _ _
+      have hR := h.pts sh0 hsh0 (s.name, s.tags)
+      simp only at hR
+      rw [hrp, hid] at hR
+      simp only [hne, asc_ascTimes _ hasc, sameSet_of_sameMem hR, Bool.and_self]
+    have c3 : ∀ k ∈ liveKeys a sh, ((seriesOut (sortByKey sh0.series)).map (·.1)).contains k = true := by
+      intro k hk
+      simp only [liveKeys, List.mem_map, List.mem_filter, Bool.and_eq_true, decide_eq_true_eq,
+        Bool.not_eq_true', List.isEmpty_eq_false_iff] at hk
+      obtain ⟨e, ⟨he, hesh, hne⟩, rfl⟩ := hk
+      have hap := absPts_of_mem h.uniq he
+      have hR := h.pts sh0 hsh0 (keyOf e)
+      rw [hid, ← hesh, hap] at hR
+      obtain ⟨p, hp⟩ := List.exists_mem_of_ne_nil _ hne
+      have hpm := (hR p).2 hp
+      -- the series exists and has that point
+      unfold readPts at hpm
+      cases hfs : findSeries sh0 (keyOf e).1 (keyOf e).2 with
+      | none => simp [hfs] at hpm
+      | some s =>
+        rw [hfs] at hpm
+        obtain ⟨hs, hn, ht⟩ := findSeries_mem hfs
+        simp only [List.contains_eq_mem, decide_eq_true_eq, hkeys, List.mem_map, List.mem_filter]
+        refine ⟨s, ⟨mem_sortByKey.2 hs, ?_⟩, ?_⟩
+        · cases hsp : s.pts with
+          | nil => rw [hsp] at hpm; cases hpm
+          | cons _ _ => rfl
+        · simp only [keyOf] at hn ht; rw [hn, ht]; rfl
+    simp only [judgeObs]
+    have b1 : decide ((seriesOut (sortByKey sh0.series)).map (·.1)).Nodup = true := decide_eq_true c1
+    have b2 : (seriesOut (sortByKey sh0.series)).all (fun x => !x.2.isEmpty && ascTimes x.2 && sameSet (absPts a sh x.1) x.2) = true :=
+      List.all_eq_true.2 c2
+    have b3 : (liveKeys a sh).all (fun k => ((seriesOut (sortByKey sh0.series)).map (·.1)).contains k) = true :=
+      List.all_eq_true.2 c3
+    rw [b1, b2, b3]; rfl
+
+end Influx.Model.StoreDel
